@@ -6,7 +6,7 @@ from pv.check import run_check
 from pv.entail import entails
 from pv.expr import Ctx, guard_facts, key_contains
 from pv.facts import AnalysisBroken, strip_targs
-from pv.loops import covers, enclosing_loops, loop_shape
+from pv.loops import covers, enclosing_loops, loop_shape, no_early_exit
 from pv import roles
 from checks.lehmann import fld, THIS
 from checks.c07 import deconv
@@ -164,7 +164,7 @@ def body(chk, db, cfgname):
         l, r, v = k[2][3], k[2][4], k[3]
         Ls = enclosing_loops(f, A)
         shapes = [loop_shape(f, ctx, x) for x in Ls]
-        ketloop = [s for s in shapes if s["kind"] == "index" and s["start"] == ("lit", 0) and not s["exits"] and s["var"][:2] == r[:2]]
+        ketloop = [s for s in shapes if s["kind"] == "index" and s["start"] == ("lit", 0) and no_early_exit(s) and s["var"][:2] == r[:2]]
         imgloop = [s for s in shapes if s["kind"] in ("iter", "other") and s["var"] is not None and s["var"][:2] != r[:2]]
         probs = []
         S_, B_, F_ = fld(HP + "::S"), fld(HP + "::Block"), fld(HP + "::F")
@@ -280,7 +280,7 @@ def body(chk, db, cfgname):
                 # same shape as the std::copy call: (callee, begin, end, destination)
                 ck = ("call", "segment", None, None, ("op", "+", lk_[2], lk_[3]) if lk_[4] == ("mcall", "Eigen::EigenBase::size", src) else ("bad",))
                 copies = [X]
-            full = shp is not None and shp["kind"] == "index" and deconv(shp["start"]) == ("lit", 0) and not shp["exits"] and \
+            full = shp is not None and shp["kind"] == "index" and deconv(shp["start"]) == ("lit", 0) and no_early_exit(shp) and \
                 deconv(shp["bound"]) in (("mcall", SC + "NumberOfBlocks", fld(HH + "::S")), ("mcall", "std::vector::size", fld(HH + "::parts")))
             srcdecl = gctx.decls.get(src[1], {}) if src and src[0] == "var" else {}
             src_ok = srcdecl.get("init") is not None and key_contains(gctx.key(srcdecl["init"]), lambda y: y[0] == "mcall" and y[1] == HP + "::getEigenValues") and \
